@@ -64,8 +64,10 @@ class T2TModel(object):
     brty = "106A"
 
     def __init__(self, mem, kind="generic", valid=None, enforce_locks=True, nak_idle=True, version=None,
-                 sens_res=b"\x44\x00", sel_res=b"\x00", seed=1, otp_or=True, signature=None):
-        """mem: physical memory image (multiple of 4 bytes).  valid: optional list of bools, one per page."""
+                 sens_res=b"\x44\x00", sel_res=b"\x00", seed=1, otp_or=True, signature=None, uid_len=7):
+        """mem: physical memory image (multiple of 4 bytes).  valid: optional list of bools, one per page.
+        uid_len: 4 | 7 | 10 - size of the identifier the tag presents in the anticollision (single / double / triple
+        size NFCID1); the memory layout is the same for all of them"""
         assert len(mem) % 4 == 0 and len(mem) >= 16
         self.mem = bytearray(mem)
         self.kind = kind
@@ -78,6 +80,7 @@ class T2TModel(object):
         self.version = version if version is not None else (self.prod or {}).get("version")
         self.sens_res = bytes(sens_res)
         self.sel_res = bytes(sel_res)
+        self.uid_len = uid_len
         self.signature = signature if signature is not None else bytes(range(0x40, 0x60))
         self.rng = random.Random(seed)
         self.nsectors = (self.npages + 255) // 256
@@ -94,7 +97,7 @@ class T2TModel(object):
     # ------------------------------------------------------------------ life cycle
     def clone(self):
         m = T2TModel(self.mem, self.kind, self.valid, self.enforce_locks, self.nak_idle, self.version,
-                     self.sens_res, self.sel_res, 1, self.otp_or, self.signature)
+                     self.sens_res, self.sel_res, 1, self.otp_or, self.signature, self.uid_len)
         return m
 
     def clear_logs(self):
@@ -129,6 +132,10 @@ class T2TModel(object):
     # ------------------------------------------------------------------ discovery
     @property
     def uid(self):
+        if self.uid_len == 4:
+            return bytes(self.mem[0:4])
+        if self.uid_len == 10:
+            return bytes(self.mem[0:3] + self.mem[4:8]) + bytes([self.mem[0] ^ 0x5A, self.mem[1] ^ 0xA5, self.mem[2] ^ 0x33])
         return bytes(self.mem[0:3] + self.mem[4:8])
 
     def target(self):
